@@ -24,9 +24,9 @@ SRC = os.path.join(REPO, 'precondition/tearfree/reallocation.py')
 
 
 def tasks(tier):
-  grid = [(2, 4, 3), (2, 3, 2), (1, 4, 2)]
+  grid = [(2, 4, 3), (2, 3, 2), (1, 4, 2), (2, 11, 10)]      # (2,11,10): smallest size at which a float32-cancelled total can make a second axis an outlier
   if tier == 'thorough':
-    grid += [(2, 5, 2), (2, 6, 3), (2, 4, 1), (2, 2, 1), (2, 4, 4), (3, 3, 2), (3, 4, 3)]
+    grid += [(2, 5, 2), (2, 6, 3), (2, 4, 1), (2, 2, 1), (2, 4, 4), (2, 16, 12), (2, 12, 4), (3, 3, 2), (3, 4, 3)]
   out = [dict(n=n, dim=d, rank=r, **({'stretch': True} if n >= 3 else {})) for n, d, r in grid]
   # several axes per layer / several groups of different dimension (exercises grouping and the write-back by layer and axis)
   out.append(dict(layers=[[3, 2]], rank=2))
@@ -252,4 +252,4 @@ def run(rep):
   rep.assumptions = ['python ints modelled as 32-bit vectors (values are far below 2^31 within the bounds)',
                      'jnp float32 scalar arithmetic = IEEE binary32 RNE']
   rep.outside = ['more than 3 axes per group, more than 3 groups', 'scoring rules, running_average, checkpoint I/O']
-  run_tasks('vp.props.c17', 'work', ts, report=rep, timeout=(2400 if rep.tier == 'quick' else 7000), workers=4)
+  run_tasks('vp.props.c17', 'work', ts, report=rep, timeout=(2400 if rep.tier == 'quick' else 4000), workers=6)
